@@ -558,15 +558,15 @@ theorem deleteM_eval {w : W} {sb : List Nat} {L : Lay} (hi : WInv w sb L) {name 
 theorem deleteM_refines {P : FsParams} {w : W} {sb : List Nat} {L : Lay} (hi : WInv w sb L) {name fname : Bytes}
     (hfn : stringToFileName name = .ok fname) :
     ∃ res w' L', deleteM name w = (res, w') ∧ WInv w' sb L' ∧ w'.c = w.c ∧
-      stepOk P (volOf w.img w.c sb L) (.delete (pathOfName fname)) (isOk res) (volOf w'.img w.c sb L') = true := by
+      StepL P (volOf w.img w.c sb L) (.delete (pathOfName fname)) (isOk res) (volOf w'.img w.c sb L') True := by
   rw [deleteM_eval hi hfn]
   cases hf : findIn w.img w.c fname L.cat with
-  | none => exact ⟨_, _, L, rfl, hi, rfl, stepOk_refused_same hi.wf _⟩
+  | none => exact ⟨_, _, L, rfl, hi, rfl, StepL.refused_same hi.wf _ _⟩
   | some res =>
     obtain ⟨dt, ds, dir, k⟩ := res
     simp only
     by_cases hlk : Dir.fileType dir k > 127
-    · rw [if_pos hlk]; exact ⟨_, _, L, rfl, hi, rfl, stepOk_refused_same hi.wf _⟩
+    · rw [if_pos hlk]; exact ⟨_, _, L, rfl, hi, rfl, StepL.refused_same hi.wf _ _⟩
     · rw [if_neg hlk]
       obtain ⟨u, hu, hdt, hds, hdir, hm⟩ := findIn_some hf
       obtain ⟨hk, hname, hlive⟩ := matchEntry_some hm
@@ -612,6 +612,7 @@ theorem deleteM_refines {P : FsParams} {w : W} {sb : List Nat} {L : Lay} (hi : W
       have hp : (recOf w.img w.c (entryAt (sec w.img u) k) t0).path = pathOfName fname := by
         show pathOfName (slice (entryAt (sec w.img u) k) 3 30) = _; rw [hname]
       rw [← hp]
+      refine ⟨?_, fun _ => noLeak_removed hfiles hfree⟩
       apply stepOk_delete_removed hfiles hi.wf hfnd hfree
       show decide ((entryAt (sec w.img u) k).getD 2 0 ≥ 128) = false
       rw [← dir_fileType_eq]
